@@ -107,7 +107,7 @@ func (r *Runner) execMapping(cmd string, a []string) string {
 		if err != nil {
 			return "bad-op"
 		}
-		okp, msg := guard(func() { r.scanMapping(a[0], m, seed, n) })
+		okp, msg := guard(func() { r.scanMapping(a[0], m, g, o, seed, n) })
 		if !okp {
 			r.oracleFail("panic", "mapping scan: "+msg)
 		}
@@ -271,7 +271,17 @@ func (r *Runner) mappingForms(kind string, m mapping.IndexMapping) {
 }
 
 // scanMapping (C03): accuracy, monotonicity, bin containment, 32-bit range on sorted probe sets.
-func (r *Runner) scanMapping(kind string, m mapping.IndexMapping, seed uint64, n int) {
+// The index is computed as floor(log_gamma(v) + offset) in float64: the sum is rounded to an ulp of its
+// larger summand, so a value within that much (in index units) of a bin edge may be assigned the
+// neighbouring bin. `slack` is that rounding, converted into a relative distance in value space
+// (d v / v = ln(gamma) * d index; the interpolated mappings' slope differs by at most 1/ln 2); for
+// ordinary offsets and accuracies it is far below 8*delta and changes nothing.
+func indexRoundingSlack(gamma, offset float64, i int) float64 {
+	mag := math.Max(math.Abs(offset), math.Max(math.Abs(float64(i)), math.Abs(float64(i)-offset)))
+	return 8 * mag * 0x1p-52 * math.Log(gamma) * 1.5
+}
+
+func (r *Runner) scanMapping(kind string, m mapping.IndexMapping, gamma, offset float64, seed uint64, n int) {
 	rng := NewRng(seed)
 	lo, hi := m.MinIndexableValue(), m.MaxIndexableValue()
 	alpha := m.RelativeAccuracy()
@@ -315,12 +325,13 @@ func (r *Runner) scanMapping(kind string, m mapping.IndexMapping, seed uint64, n
 		}
 		prev = i
 		val := m.Value(i)
-		if !(math.Abs(val-v) <= alpha*v*(1+delta)+v*8*delta) {
+		slack := 8*delta + indexRoundingSlack(gamma, offset, i)
+		if !(math.Abs(val-v) <= alpha*v*(1+delta)+v*slack) {
 			r.oracleFail("mapping-accuracy", fmt.Sprintf("%s alpha=%v: Value(Index(%v)) = %v, relative error %v", kind, alpha, v, val, math.Abs(val-v)/v))
 			return
 		}
 		lb, ub := m.LowerBound(i), m.LowerBound(i+1)
-		if !(lb <= v*(1+8*delta)) || !(v <= ub*(1+8*delta)) {
+		if !(lb <= v*(1+slack)) || !(v <= ub*(1+slack)) {
 			r.oracleFail("bin-containment", fmt.Sprintf("%s alpha=%v: v=%v index %d but bounds [%v, %v]", kind, alpha, v, i, lb, ub))
 			return
 		}
